@@ -86,6 +86,12 @@ func c14Concretise(cs c14Case) (qs []c14Q, ask []int) {
 		qs = []c14Q{{Kind: "config"}, {Kind: "flags"}, {Kind: "metadata", Expr: "foo"}, {Kind: "metadata", Expr: "bar"}, q("count(up)")}
 	case "range1":
 		qs = []c14Q{rg("count(up)", 8)}
+	case "rangeShort": // single-slice range queries (look-back below the 2h slice size), one per caller
+		for i := 0; i < cs.K; i++ {
+			qs = append(qs, c14Q{Kind: "range", Expr: fmt.Sprintf("count(metric_%d)", i), Lookback: 3600, Step: 60})
+		}
+	case "rangeShortSame":
+		qs = []c14Q{{Kind: "range", Expr: "count(up)", Lookback: 3600, Step: 60}}
 	case "rangeTwin":
 		qs = []c14Q{rg("count(up)", 8), rg("count(up)", 6)}
 	case "rangeDisjoint":
